@@ -52,7 +52,7 @@ def c17_nontrivial(case, v):
 
 
 PROP = dict(
-    proof_modules=["VrpProofs.C17.Basic", "VrpProofs.C17.Lkh", "VrpProofs.C17.Dbscan", "VrpProofs.C17.KMed", "VrpProofs.C17"], model_modules=["VrpModel.C17"], drv="drv_c17", bin="c17",
+    proof_modules=["VrpProofs.C17.Basic", "VrpProofs.C17.Lkh", "VrpProofs.C17.LkhCycle", "VrpProofs.C17.Dbscan", "VrpProofs.C17.KMed", "VrpProofs.C17"], model_modules=["VrpModel.C17"], drv="drv_c17", bin="c17",
     compare=c17_compare,
     nontrivial=c17_nontrivial,
     timeout={"quick": 1800, "thorough": 14400},
